@@ -32,6 +32,8 @@ def main():
         sh(["git", "-C", "/repo", "worktree", "remove", "--force", str(SCR)])
     sh(["git", "-C", "/repo", "worktree", "add", "--detach", str(SCR), head])
     env = dict(os.environ, PYTHONPATH=str(SCR), PANOPTICA_CITATION_REMINDER="false", PYTHONHASHSEED="0")
+    for other in demo.parent.glob("demo*.py"):
+        shutil.copy(other, SCR / other.name)      # a demo may import helpers from its sibling demo
     shutil.copy(demo, SCR / "demo_seed.py")
     meta = {"seed": sid, "property": prop, "repo_head": head, "ran": []}
     rc0, out0 = sh(["/venv/bin/python", "demo_seed.py"], cwd=SCR, env=env, timeout=900)
